@@ -10,6 +10,28 @@ COMMON_NOTE = ("Trusted base: pyvc engine (AST transform T1-T3 of the real sourc
                "lift to C), A3 (integer powers), A4 (path forking via z3), A5 (numpy shim contracts, listed per run in evidence.trusted_base). ")
 
 CLAIMED = {
+    "C16": dict(
+        category="proof",
+        text=("(i) decoupling constants c20, c30 (POLE, MSBAR) equal the Chetyrkin-Kniehl-Steinhauser values (exact forms in zeta2, zeta3, ln2; decimals to "
+              "their printed digits); (ii) the residual of the RG identity d a'/dt + beta^(nf+1)(a') for a' = a(1 + sum a^n C_n(L)) vanishes through "
+              "O(a^4) as a polynomial identity in (nf, L) for both schemes, generated mechanically in a series ring with the code's own beta/gamma_m "
+              "(mass running included for MSBAR); (iii) unit factor at ratio 1 for LO/NLO; (v) Couplings.a executed over symbolic scales, walls and "
+              "ratios for all 16 (nf_ref, nf_to) pairs, both schemes, orders 1-4, every isclose() path: equals the composition of the solver F and the "
+              "matching factors along Atlas.path with the right ratio, coefficients and coupling. Downward = inverse is C22."),
+        note=COMMON_NOTE + "Literature constants typed in the contract (self-checked against printed decimals). Solver compute() replaced by an uninterpreted F (its own contract: C15/C17). Scales assumed above the tau mass for (v). Quick tier: orders 2 and 4 (+ the 3<->6 pairs for all orders).",
+        technique="contract-based deductive verification: series-ring RG residual + path-exhaustive symbolic execution against a specification built from Atlas.path",
+        design_ref="DESIGN.md section 2, C16",
+    ),
+    "C17": dict(
+        category="proof",
+        text=("Cache invariant of Couplings: a miss calls exactly the solver selected by (method, alphaem_running), stores a copy and returns a distinct "
+              "object; a hit recomputes nothing and returns a fresh copy equal to the stored value even after the caller mutated earlier results; the "
+              "key contains every argument that reaches the solver; a() leaves self.a_ref and every cached value untouched although it scales its "
+              "result in place, and returns the same term with a cold and a warm cache. With the induction lemma this is history independence."),
+        note=COMMON_NOTE + "Object identity / memory sharing are decided on the real Python objects inside the harness; solvers are uninterpreted pure functions (their purity is by inspection: module-level numba functions and scipy calls).",
+        technique="contract-based deductive verification: class invariant on a ghost view of the cache, checked on the real methods over symbolic values",
+        design_ref="DESIGN.md section 2, C17",
+    ),
     "C08": dict(
         category="proof",
         text=("NS: the expanded, truncated and ordered-truncated kernels are executed on couplings a = lambda*alpha in a truncated series ring and "
